@@ -114,8 +114,37 @@ def pts_of(case, key='pts'):
         if len(_buffers) > 4096:
             _buffers.clear()
             _buffers[n] = buf
+    buf.setflags(write=True)
     buf[:] = np.array(data, dtype=float).reshape(-1, 2)
+    # handed out READ-ONLY (like a memory-mapped trace): a library function that writes into its
+    # input - even a no-op in-place sanitising step - raises instead of silently passing
+    buf.setflags(write=False)
     return buf
+
+
+_idx_buffers = {}
+
+
+def idx_of(values):
+    """An index vector as an int64 array whose OBJECT is re-used for every vector of the same length
+    (contents overwritten in place), the way a local search nudges one breakpoint array."""
+    n = len(values)
+    buf = _idx_buffers.get(n)
+    if buf is None:
+        buf = _idx_buffers[n] = np.empty(n, dtype=np.int64)
+    buf[:] = values
+    return buf
+
+
+def enable_debug_logging():
+    """Switch the package's loggers to DEBUG with a handler that discards the records, as an
+    application that runs with logging.basicConfig(level=DEBUG) would (debug-only code paths)."""
+    import logging
+    lg = logging.getLogger('kneeliverse')
+    lg.setLevel(logging.DEBUG)
+    if not lg.handlers:
+        lg.addHandler(logging.NullHandler())
+    lg.propagate = False
 
 
 def digest(obj):
